@@ -90,6 +90,9 @@ def check_alignment(cal, batches, pristine_loss, P, *, rerun_model=None, first_r
     lens = {h: len(getattr(cal, h)) for h in S.HISTORY}
     if any(v != n for v in lens.values()):
         return [f"history lengths {lens} differ from the sample counter {n}"]
+    ids = list(cal.samplers_id_table.values())
+    if len(set(ids)) != len(ids):
+        bad.append(f"the sampler id table maps two classes to one id, so a label no longer identifies the designated sampler: {dict(cal.samplers_id_table)}")
     row = first_row
     for bi, (bidx, smp, pos, cname, ret) in enumerate(batches):
         if ret is None:
